@@ -251,7 +251,15 @@ def _(tier, seed):
                 cand = [b for b in boxes if b not in live and b not in seq]
                 if not cand:
                     continue
-                b = rng.choice(cand); p.add(b); live.append(b); seq.append(b); hist.append(("add", b.i))
+                b = rng.choice(cand)
+                how = rng.choice(["add", "add", "extend-list", "extend-generator"])
+                if how == "add":
+                    p.add(b)
+                elif how == "extend-list":
+                    p.extend([b])
+                else:
+                    p.extend(x for x in [b])          # an iterable that can be walked only once
+                live.append(b); seq.append(b); hist.append((how, b.i))
             elif op == "remove":
                 if not live:
                     continue
@@ -281,3 +289,46 @@ def _(tier, seed):
         if len(failures) >= 3:
             break
     return dict(evaluations=evals, distinct=len(distinct), failures=failures)
+
+
+from pyvc.contracts import stub, scenario
+from pyvc.values import SObj
+
+
+# -- Plane.extend: any iterable - also one that can be walked only once - and every object goes through add(), once, in order ------------------------------------
+class _OnceIterable:
+    """an iterable that yields its items on the first walk only (a generator, map, zip ...)"""
+    def __init__(self, items):
+        self.items, self.walks = items, 0
+    def __sym_iter__(self, I):
+        from pyvc.values import SIter
+        self.walks += 1
+        items = self.items if self.walks == 1 else []
+        return SIter(len(items), lambda k: items[k], "one-shot")
+
+
+class _ObjsArg(T.Sort):
+    def fresh(self, ctx, name):
+        kind = ctx.choose(["list", "tuple", "one-shot-iterator", "empty"], "iterable-kind")
+        items = [] if kind == "empty" else ["obj-a", "obj-b", "obj-a2"]
+        v = {"list": list(items), "tuple": tuple(items), "one-shot-iterator": _OnceIterable(list(items)), "empty": []}[kind]
+        return SObj(None, {"v": v, "_kind": kind, "_items": items}, name)
+    def sample(self, rng):
+        return None
+    def from_model(self, ev, v):
+        return v.f["_kind"]
+
+
+_padd = stub("pdfminer.utils:Plane.add", ["self", "obj"])
+sc = scenario("pdfminer.utils", "plane-extend-adds-each-object-once-in-order", """
+def extend_with(plane, arg):
+    plane.extend(arg.v)
+""", props=["C20", "C08"])
+sc.param("plane", T.Obj("pdfminer.utils:Plane")).param("arg", _ObjsArg())
+sc.skip_cross = True
+_pgr = stub("pdfminer.utils:Plane._getrange", ["self", "bbox"]); _pgr.result_fn = ("cells", lambda bbox: [(0, 0)])
+sc.wire = lambda bound, ghosts: bound["plane"].f.update(_seq=[], _objs=set(), _grid={}, gridsize=50, x0=0, y0=0, x1=100, y1=100)
+sc.stubs = {"pdfminer.utils:Plane.add": _padd, "pdfminer.utils:Plane._getrange": _pgr}
+sc.mod("plane.*")
+sc.ens("every-object-through-add-once-in-iteration-order", lambda arg, trace: (
+    all(t[0].endswith("Plane.add") for t in trace) and [t[1].get("obj") for t in trace] == arg._items))
